@@ -934,7 +934,19 @@ pub fn replay(_ctx: &mut Ctx, rep: &mut Report, v: &Value) {
     rep.eval_distinct(true);
     let sig = |s: &str| format!("C16 {} {} {} {}", ds.alpha, if pr.zoops { "zoops" } else { "oops" }, cfgs::arm_name(arm), s);
     let r1 = run_ds(&ds, &pr, arm, &h.init, &h.steps);
-    let r2 = run_ds(&ds, &pr, arm, &h.init, &h.steps);
+    let mut r2 = run_ds(&ds, &pr, arm, &h.init, &h.steps);
+    // a trace that depends on something outside (data, parameters, RNG script) - e.g. the per-instance order of a hash
+    // set - differs between two runs only with some probability: the replay repeats the run 24 times so that its
+    // verdict is the same every time it is asked (up to 2^-24 for a coin-flip dependence)
+    if let (Ok(a), Ok(_)) = (&r1, &r2) {
+        for _ in 0..24 {
+            let rn = run_ds(&ds, &pr, arm, &h.init, &h.steps);
+            if rn.as_ref().ok() != Some(a) {
+                r2 = rn;
+                break;
+            }
+        }
+    }
     match (r1, r2) {
         (Ok(a), Ok(b)) => {
             if a != b {
